@@ -33,6 +33,12 @@ func init() {
 		{ID: "E1.revoke.provider", Fn: "op.Revoke", Kind: "call", Pat: "httphelper.MarshalJSON(_, nil)", Max: 1,
 			Why: "the 200 answer is written only after the storage revoked the token for the authenticated client",
 			Req: []string{"ok(_.RevokeToken(_, _, _, $clientID))", "def($clientID, op.ParseTokenRevocationRequest(__), 2)", "ok(op.ParseTokenRevocationRequest(__))"}},
+		{ID: "E1.revoke.provider.resolves-token", Fn: "op.Revoke", Kind: "call", Pat: "_.RevokeToken(_, $token, __)", Max: 1,
+			Why: "the type hint is only a hint: unless the storage recognised the token as a refresh token, the access-token resolver must have run before the storage is asked to revoke",
+			Req: []string{"called(op.getTokenIDAndSubjectForRevocation(__)) || def($token, $tid)"}},
+		{ID: "E1.revoke.legacy-server.resolves-token", Fn: "op.(*LegacyServer).Revocation", P: []string{"s", "ctx", "r"}, Kind: "call", Pat: "_.RevokeToken(_, $r.Data.Token, __)", Max: 1,
+			Why: "sibling of op.Revoke",
+			Req: []string{"called(op.getTokenIDAndSubjectForRevocation(__)) || eq($r.Data.Token, $tid)"}},
 		{ID: "E1.revoke.legacy-server", Fn: "op.(*LegacyServer).Revocation", P: []string{"s", "ctx", "r"}, Kind: "ret ok", Max: 1,
 			Req: []string{"ok(_.RevokeToken(_, _, _, $r.Client.GetID()))"}},
 		// logout
